@@ -156,7 +156,7 @@ def noise_positive(pn, sn):
     return out
 
 
-def build_ekf_sym(p, env, pn, sn, *, cse=True, k=None, max_dt=0.1, container="list", reverse_sensors=False, cal_container="set"):
+def build_ekf_sym(p, env, pn, sn, *, cse=True, k=None, max_dt=0.1, container="list", reverse_sensors=False, cal_container="set", calmap=None):
     """Real formak.python.compile_ekf with symbolic calibration and symbolic noise.  Call inside installed()."""
     from formak import python
 
@@ -168,10 +168,10 @@ def build_ekf_sym(p, env, pn, sn, *, cse=True, k=None, max_dt=0.1, container="li
     sens = p.sympy_sensors(reverse=reverse_sensors)
     sensor_noises = {key: {r: w(sn[key][r]) for r in sens[key]} for key in sens}
     cfg = python.Config(common_subexpression_elimination=cse, innovation_filtering=k, max_dt_sec=max_dt)
-    return python.compile_ekf(p.ui_model(container, cal_container=cal_container), process_noise, sens, sensor_noises, sym_calibration_map(p, env), config=cfg)
+    return python.compile_ekf(p.ui_model(container, cal_container=cal_container), process_noise, sens, sensor_noises, calmap if calmap is not None else sym_calibration_map(p, env), config=cfg)
 
 
-def build_ekf_float(p, vals, *, cse=True, k=None, max_dt=0.1, pn=None, sn=None):
+def build_ekf_float(p, vals, *, cse=True, k=None, max_dt=0.1, pn=None, sn=None, calmap=None):
     """The real code in floats. vals: name -> float for calibration; pn/sn default to the program's noise."""
     from formak import python
 
@@ -182,7 +182,7 @@ def build_ekf_float(p, vals, *, cse=True, k=None, max_dt=0.1, pn=None, sn=None):
     sens = p.sympy_sensors()
     sensor_noises = {key: {r: float(sn[key][r]) for r in sens[key]} for key in sens}
     cfg = python.Config(common_subexpression_elimination=cse, innovation_filtering=k, max_dt_sec=max_dt)
-    return python.compile_ekf(p.ui_model(), process_noise, sens, sensor_noises, float_calibration_map(p, vals), config=cfg)
+    return python.compile_ekf(p.ui_model(), process_noise, sens, sensor_noises, calmap if calmap is not None else float_calibration_map(p, vals), config=cfg)
 
 
 def noise_vals_from_env(p, envf):
